@@ -17,7 +17,7 @@ from concurrent.futures import ProcessPoolExecutor
 import numpy as np
 
 from .. import stages
-from ..common import Check, sha
+from ..common import Check, sha, touch_same_index
 from ..tlc import Workdir
 
 PROP = "C08"
@@ -183,6 +183,8 @@ def record(args):
                 except RuntimeError:
                     pass
             det.fit(Xin)
+            if rng.integers(0, 2):
+                touch_same_index(det, Xin)
             sc = det.transform_scores(Xin).to_numpy().ravel()
             cps = [int(c) for c in det.predict(Xin)["ilocs"].to_numpy()]
             rsc = MovingWindow(change_score=mk(), bandwidth=b, threshold_scale=1.0).fit(X[::-1].copy()) \
